@@ -272,8 +272,12 @@ def assemble(sess, sp, proof):
     called = calls - body_names
     # calls are replaced by contract if listed in @replace or if the callee is a contract-only @stub; a listed
     # callee that the current code no longer calls is dropped (dfcc aborts on a replace target that does not occur)
+    def defined_in_extra(c):
+        # a C definition of c in the proof's own @extra / @harness text takes precedence over any @stub of a used spec file
+        return re.search(r'\b%s\s*\([^;{}]*\)\s*\{' % re.escape(c), proof.extra + (proof.harness or '')) is not None
     def contract_stub(c):
         t = sp.stubs.get(c, '')
+        if defined_in_extra(c): return False
         return bool(t) and '__CPROVER_' in t and '{' not in t.split('__CPROVER_')[0] and t.rstrip().endswith(';')
     a.replaced = [c for c in proof.replace if c in called] + sorted(c for c in called if contract_stub(c) and c not in proof.replace)
     a.dropped_replace = [c for c in proof.replace if c not in called]
@@ -282,7 +286,7 @@ def assemble(sess, sp, proof):
         if c.startswith('__builtin_') or c in ('VERIF_operator_new', 'VERIF_throw'):
             if c in sp.stubs: protos.append(sp.stubs[c])
             continue
-        if c in sp.stubs:
+        if c in sp.stubs and not defined_in_extra(c):
             protos.append(sp.stubs[c]); a.assumed.append(c); continue
         if c in seams and c not in sp.stubs:
             if re.search(r'\b%s\s*\(' % re.escape(c), extra_text): continue
